@@ -527,7 +527,8 @@ func Build(o Options) (*Topo, error) {
 				t.Close()
 				return nil, err
 			}
-			t.MC[i] = multiclient.New(t.F, t.Srv[i].Addr(), 4, time.Hour, pf)
+			// a short idle time only so that the pool's collector goroutine ends soon after Close (it sleeps that long)
+			t.MC[i] = multiclient.New(t.F, t.Srv[i].Addr(), 4, 3*time.Second, pf)
 			t.Fw[i].Inner = t.MC[i]
 		default:
 			return nil, fmt.Errorf("unknown forwarder kind %q", o.FwdKind)
